@@ -165,7 +165,8 @@ info("C16",
 info("C05",
      technique="Kani/CBMC bounded model checking of TTYEncoder::encode per command variant: emitted bytes are parsed "
                "back by a harness-side ECMA-48/xterm reader and compared with the command for all parameter values",
-     outside="positions/counts above 99999; EightBit and Gray colour depths (f32 colour reduction, see C20); titles, "
+     outside="Face and FaceModify (SGR built through the encoder's own Chunks writer: experimental tier, > 40 min); "
+             "positions/counts above 99999; EightBit and Gray colour depths (f32 colour reduction, see C20); titles, "
              "capability names and raw payloads longer than 3 bytes; Image/ImageErase (handled by the image handlers)",
      assumptions=["harness-side reader implements ECMA-48 CSI/OSC/DCS syntax and the SGR semantics of ECMA-48 8.3.117 "
                   "+ xterm/kitty extensions (38/48/58 with ; or : forms, 4:n underline styles)",
@@ -195,11 +196,14 @@ def gen_c06(ctx):
 
 info("C06",
      technique="Kani/CBMC bounded model checking: FaceModify::apply against reference SGR semantics for every face and "
-               "record; the library's SGR reader against a reference SGR machine on every parameter string up to a "
-               "length; encoder output read back by the payload decoders",
-     outside="SGR parameter strings longer than 2 (quick) / 4 (thorough) bytes; TTYCellWriter end to end (LazyLock "
-             "command automaton); chunking of the written bytes (C03); palette (38;5;n) and 16-colour selections",
-     assumptions=["reference SGR machine of kani/src/c05.rs (ECMA-48 8.3.117 + xterm/kitty extensions)"])
+               "record; sgr_color on the encoder's true-colour parameter groups followed by further parameters; encoder "
+               "output of every character read back by the payload decoder; z3 over the dumped command automaton (every "
+               "scalar except ESC is accepted as a character); 22 fixed SGR strings through the real sgr_face (concrete, auxiliary)",
+     outside="sgr_face on symbolic parameter strings and the Face/FaceModify encoder (experimental tier: do not fit the "
+             "solver), hence the full encode->decode round trip is argued from the parts; TTYCellWriter end to end "
+             "(LazyLock command automaton); chunking of the written bytes (C03); 16-colour selections",
+     assumptions=["reference SGR semantics of kani/src/c05.rs (ECMA-48 8.3.117 + xterm/kitty extensions)",
+                  "fixed-string expectations written by hand from ECMA-48 / xterm ctlseqs"])
 
 
 # ----------------------------------------------------------------------------------------------
@@ -642,7 +646,8 @@ info("C09",
 @generator
 def gen_c10(ctx):
     out = ["// generated: flex_layout instances by number of children", "use crate::c10::*;", ""]
-    for n, tier, timeout in ((0, "quick", 600), (1, "quick", 900), (2, "thorough", 3000), (3, "thorough", 3000)):
+    # two or more children: the SmallVec layout store spills to the heap, CBMC reports solver errors / runs out of memory
+    for n, tier, timeout in ((0, "quick", 600), (1, "quick", 900), (2, "experimental", 3000), (3, "experimental", 3000)):
         out.append("/// @tier %s @timeout %d\n/// @bounds %d statically typed probe children (any wish <= 40x40, any alignment, no flex factor); both "
                    "directions, every justification, constraint min <= max <= 24\n/// @encodes view::flex::flex_layout, view::container::Align::align\n"
                    "#[cfg_attr(kani, kani::proof)]\n#[cfg_attr(kani, kani::unwind(%d))]\npub fn c10_flex_n%d() {\n    flex_case::<%d>()\n}\n"
